@@ -1191,7 +1191,12 @@ class Layout:
             if s[3] or self.p(self.else_empty):
                 if not s[3]:
                     self.note("empty-else")
-                out += (self.nl() + self.indent * depth if self.brace_nl else " ") + "else" + self.before_block() + self.block(s[3], depth)
+                out += (self.nl() + self.indent * depth if self.brace_nl else " ") + "else"
+                if len(s[3]) == 1 and s[3][0][0] == "ite" and self.p(0.5) and not self.plain:
+                    self.note("else-if")
+                    out += " " + self.stmt(s[3][0], depth)
+                else:
+                    out += self.before_block() + self.block(s[3], depth)
             return out
         if t == "while":
             return "while" + ("" if self.p(self.tight) else " ") + self.cond(s[1]) + self.before_block() + self.block(s[2], depth)
@@ -1211,6 +1216,9 @@ class Layout:
                 init = []
             head = "for" + ("" if self.p(self.tight) else " ") + "(" + "; ".join(self.stmt(x, depth) for x in init) + "; " + \
                 self.expr(c, 0) + "; " + "; ".join(self.stmt(x, depth) for x in inc) + ")"
+            if len(body) == 1 and body[0][0] in ("assign", "print", "opassign", "incr", "decr", "scall") and self.p(0.4) and not self.plain:
+                self.note("loop-no-braces")
+                return pre + head + " " + self.stmt(body[0], depth)
             return pre + head + self.before_block() + self.block(body, depth)
         if t == "dowhile":
             return "do" + self.before_block() + self.block(s[1], depth) + " while " + self.cond(s[2])
@@ -1230,6 +1238,9 @@ class Layout:
                     return "case " + (str(v) if v >= 0 else " -" + str(-v)) + ":"
             except ValueError:
                 pass
+            if self.p(self.bare) and bare_ok(lab):
+                self.note("bare-case-label")
+                return "case " + lab + ":"
             return "case " + self.strlit(lab) + ":"
         if t == "try":
             return "try" + self.before_block() + self.block(s[1], depth) + (self.nl() + self.indent * depth if self.brace_nl else " ") + \
